@@ -9,15 +9,15 @@ W=/tmp/ver/$P-$(basename $D)
 rm -rf $W; git -C /repo worktree prune; git -C /repo worktree add -q $W HEAD || exit 2
 cp /repo/src/gtirb_rewriting/version.py $W/src/gtirb_rewriting/version.py
 cd $W
-PYTHONPATH=$W/src /venv/bin/python $D/demo.py > /tmp/ver/demo0.log 2>&1; R0=$?
+PYTHONPATH=$W/src /venv/bin/python $D/demo.py > $W.demo0.log 2>&1; R0=$?
 git apply $D/patch.diff || { echo "PATCH DOES NOT APPLY"; git -C /repo worktree remove --force $W; exit 2; }
-PYTHONPATH=$W/src /venv/bin/python -m pytest -q -p no:cacheprovider tests --deselect tests/test_e2e.py > /tmp/ver/tests.log 2>&1; RT=$?
-PYTHONPATH=$W/src /venv/bin/python $D/demo.py > /tmp/ver/demo1.log 2>&1; R1=$?
-echo "demo_unchanged=$R0 tests_with_patch=$RT ($(tail -1 /tmp/ver/tests.log)) demo_with_patch=$R1"
+PYTHONPATH=$W/src /venv/bin/python -m pytest -q -p no:cacheprovider tests --deselect tests/test_e2e.py > $W.tests.log 2>&1; RT=$?
+PYTHONPATH=$W/src /venv/bin/python $D/demo.py > $W.demo1.log 2>&1; R1=$?
+echo "demo_unchanged=$R0 tests_with_patch=$RT ($(tail -1 $W.tests.log)) demo_with_patch=$R1"
 cd /verif
 for C in $CHECKS; do
   VERIF_NO_EVIDENCE=1 PYTHONPATH=$W/src ./check $C --tier quick > /tmp/ver/check-$P-$C.log 2>&1; RC=$?
   echo "check $C rc=$RC violations=$(grep -c '^VIOLATION' /tmp/ver/check-$P-$C.log) $(grep '^VIOLATION' -A1 /tmp/ver/check-$P-$C.log | sed -n 2p | cut -c1-160)"
   tail -1 /tmp/ver/check-$P-$C.log | cut -c1-200
 done
-git -C /repo worktree remove --force $W
+git -C /repo worktree remove --force $W; rm -f $W.demo0.log $W.tests.log $W.demo1.log
